@@ -20,7 +20,10 @@ mod c12;
 mod req;
 mod sys;
 pub mod sched;
+mod cbc;
 mod conc;
+mod wu;
+mod mgrc;
 pub mod util;
 
 fn main() {
@@ -47,6 +50,9 @@ fn main() {
         "req" => req::run_case,
         "sys" => sys::run_case,
         "conc" => conc::run_case,
+        "cbc" => cbc::run_case,
+        "wu" => wu::run_case,
+        "mgrc" => mgrc::run_case,
         p => {
             eprintln!("unknown property {}", p);
             std::process::exit(2);
